@@ -236,6 +236,9 @@ func genMut(t *rapid.T, e *extInfo, depth int) Mut {
 	switch m.Op {
 	case "trunc", "delline", "dupline", "deltok", "duptok", "zipdup", "zipdel":
 		m.A = ubits(t, "a", 16)
+	case "eol":
+		m.A = ubits(t, "a", 16)
+		m.B = upick(t, "b", len(lineEnds))
 	case "swapline", "swaptok", "flip", "delrange", "repeat":
 		m.A = ubits(t, "a", 16)
 		m.B = ubits(t, "b", 10)
